@@ -93,12 +93,38 @@ fn content_text(tok: u64) -> String {
             s.push_str(*r.pick(&WORDS[..]));
             s.push(' ');
         }
+        if li == 0 {
+            // the first non-blank line names the content token: a `## Recent Delta Highlights` entry of a summary
+            // identifies the message it was taken from
+            s.push_str(&format!("tok{tok}"));
+        }
         if li + 1 < lines {
             s.push('\n');
         }
     }
     s
 }
+/// `extract_cumulative_summary_section` as the summary contract describes it: the text between the line
+/// `## Cumulative Summary` and the next `## ` heading, trimmed; None when blank (independent re-implementation)
+fn cumulative_section(md: &str) -> Option<String> {
+    let mut it = md.lines();
+    for l in it.by_ref() {
+        if l.trim() == "## Cumulative Summary" {
+            break;
+        }
+    }
+    let mut out = String::new();
+    for l in it {
+        if l.trim_start().starts_with("## ") {
+            break;
+        }
+        out.push_str(l);
+        out.push('\n');
+    }
+    let t = out.trim();
+    if t.is_empty() { None } else { Some(t.to_string()) }
+}
+const MAX_SUMMARY_CHARS: usize = 20_000;
 const LEGACY_MD: &str = "# Compaction summary (auto)\n\n- kind: cumulative_v1\n- cut_rule_id: stride_messages_v1/2\n- stride_messages: 2\n- target_message_ordinal: 2\n- to_seq: 2\n- to_message_id: x\n";
 
 // ------------------------------------------------------------------ world
@@ -115,6 +141,10 @@ struct World {
     arts: Vec<(String, Vec<u64>, String)>, // artifact uuid, encoding (as first read), markdown
     jobs: Vec<String>,
     contents: HashMap<String, u64>,
+    /// findings made while reading a summary artifact for the first time (text-level checks of what fed it)
+    art_viol: std::cell::RefCell<Vec<Viol>>,
+    /// a summary reached the 20 000-character cap: its trailing sections are cut, the case is not compared
+    truncated: std::cell::Cell<bool>,
 }
 
 fn unknown_uuid(k: u64) -> String {
@@ -131,7 +161,7 @@ impl World {
         let log = Arc::new(EventLog::new(data.join("events.jsonl")).unwrap());
         let store = Arc::new(ContinuityStore::new(data.clone(), ws.clone(), log.clone()).unwrap());
         let tid = store.ensure_default().unwrap();
-        let mut w = World { _scratch: scratch, root, data, ws, log, store, tid, events: vec![], fid: HashMap::new(), arts: vec![], jobs: vec![], contents: HashMap::new() };
+        let mut w = World { _scratch: scratch, root, data, ws, log, store, tid, events: vec![], fid: HashMap::new(), arts: vec![], jobs: vec![], contents: HashMap::new(), art_viol: Default::default(), truncated: Default::default() };
         w.refresh();
         w
     }
@@ -208,6 +238,66 @@ impl World {
             0
         };
         out.push(delta);
+        // which messages fed the summary, as far as it records them: `- delta_actors:` (per-actor counts of the
+        // delta, first 6) and `## Recent Delta Highlights` (the last 12 messages of the delta: actor + first line)
+        if md.chars().count() >= MAX_SUMMARY_CHARS {
+            self.truncated.set(true);
+        }
+        let mut actors: Vec<(u64, u64)> = vec![];
+        if auto {
+            if let Some(l) = md.lines().find_map(|l| l.strip_prefix("- delta_actors: ")) {
+                if l.trim() != "none" {
+                    for part in l.split(", ") {
+                        let (a, c) = part.split_once('=').unwrap_or(("", ""));
+                        actors.push((a.trim().trim_start_matches("actor").parse().unwrap_or(444_444), c.trim().parse().unwrap_or(444_444)));
+                    }
+                }
+            } else {
+                actors.push((555_555, 555_555));
+            }
+        }
+        out.push(actors.len() as u64);
+        for (a, c) in &actors {
+            out.extend([*a, *c]);
+        }
+        let mut high: Vec<(u64, u64)> = vec![];
+        if auto {
+            match md.rfind("## Recent Delta Highlights") {
+                None => high.push((555_555, 555_555)),
+                Some(at) => {
+                    for l in md[at..].lines().skip(1) {
+                        let Some(l) = l.strip_prefix("- ") else { continue };
+                        let (a, rest) = l.split_once(": ").unwrap_or(("", ""));
+                        let tok = rest.split_whitespace().last().and_then(|w| w.strip_prefix("tok")).and_then(|x| x.parse::<u64>().ok());
+                        high.push((a.trim_start_matches("actor").parse().unwrap_or(444_444), tok.unwrap_or(444_444)));
+                    }
+                }
+            }
+        }
+        out.push(high.len() as u64);
+        for (a, c) in &high {
+            out.extend([*a, *c]);
+        }
+        // text level: a cumulative summary built on a readable, non-placeholder base carries that base's cumulative
+        // section forward at the head of its own; a bootstrap summary starts from the topics of the whole history
+        if auto {
+            let base_md = v["basis"]["base_summary_artifact_id"].as_str().and_then(|b| self.arts.iter().find(|a| a.0 == b)).map(|a| a.2.clone());
+            let own = cumulative_section(&md).unwrap_or_default();
+            match (note, base_md) {
+                (0, Some(b)) => {
+                    let want = cumulative_section(&b).unwrap_or_else(|| b.trim().to_string());
+                    if !own.starts_with(want.trim()) {
+                        self.art_viol.borrow_mut().push(Viol { what: format!("summary {id} names base summary {} but its cumulative section does not start with that base's cumulative section:\n{own}\n---- base section ----\n{want}", v["basis"]["base_summary_artifact_id"]), class: "summary_base_not_carried".into() });
+                    }
+                }
+                (0, None) if v["basis"]["base_summary_artifact_id"].is_string() => {}
+                _ => {
+                    if !own.starts_with("Topics so far (best-effort):") && delta > 0 {
+                        self.art_viol.borrow_mut().push(Viol { what: format!("bootstrap summary {id} (no usable base) does not start from the history's topics:\n{own}"), class: "summary_base_not_carried".into() });
+                    }
+                }
+            }
+        }
         (out, md)
     }
     /// summary text with every store-specific identifier replaced by its canonical name
@@ -623,6 +713,7 @@ struct Run {
     n_ckpt: usize,
     n_cut: usize,
     stats: Vec<String>,
+    truncated: bool,
 }
 
 fn run_case(ops: &[Op], check_truth_path: bool) -> Run {
@@ -892,6 +983,7 @@ fn run_case(ops: &[Op], check_truth_path: bool) -> Run {
     }
     w.refresh();
     oracle_history(&w, &dropped, &mut viol);
+    viol.append(&mut w.art_viol.borrow_mut());
     // final history + artifacts
     obs.push(w.events.len() as u64);
     for e in &w.events {
@@ -906,7 +998,8 @@ fn run_case(ops: &[Op], check_truth_path: bool) -> Run {
     let texts = w.arts.iter().map(|a| w.canon_text(&a.2)).collect();
     let n_ckpt = w.events.iter().filter(|e| matches!(e.kind, EventKind::ContinuityCompactionCheckpointCreated { .. })).count();
     let _ = &w.root;
-    Run { obs, texts, viol, n_ckpt, n_cut, stats }
+    let truncated = w.truncated.get();
+    Run { obs, texts, viol, n_ckpt, n_cut, stats, truncated }
 }
 
 // ------------------------------------------------------------------ long histories (beyond the bounded scans)
@@ -1087,6 +1180,7 @@ struct ConcRun {
     jobs: usize,
     ckpts: usize,
     dup_ckpts: usize,
+    truncated: bool,
 }
 
 /// sequential prefix (no observations): the history the concurrent calls start from
@@ -1267,6 +1361,7 @@ fn run_conc(prefix: &[Op], calls: &[Spec], seed: u64, fixed: Option<&[u64]>) -> 
     drop(rs);
     // independent oracle: valid stream, job bracket, coverage; every job whose call returned has its job_ended
     oracle_history(&w, &[], &mut viol);
+    viol.append(&mut w.art_viol.borrow_mut());
     for j in &claimed_done {
         let ended = w.events.iter().filter(|e| matches!(&e.kind, EventKind::ContinuityJobEnded { job_id, .. } if job_id == j)).count();
         if ended != 1 {
@@ -1330,7 +1425,8 @@ fn run_conc(prefix: &[Op], calls: &[Spec], seed: u64, fixed: Option<&[u64]>) -> 
     let ckpts = tos.len();
     tos.sort();
     tos.dedup();
-    ConcRun { obs, texts, schedule, viol, inconclusive, jobs, ckpts, dup_ckpts: ckpts - tos.len() }
+    let truncated = w.truncated.get();
+    ConcRun { obs, texts, schedule, viol, inconclusive, jobs, ckpts, dup_ckpts: ckpts - tos.len(), truncated }
 }
 
 fn gen_conc(r: &mut Rng) -> (Vec<Op>, Vec<Spec>) {
@@ -1577,13 +1673,15 @@ fn main() {
                     });
                     res.oracle_violations.push(OracleViolation { case_id: i as i64, what: v.what.clone(), class: v.class.clone(), replay: case_json(&small) });
                 }
-                if !a.oracle_only() {
+                if r1.truncated {
+                    res.bump("summary_reached_20000_chars_not_compared");
+                } else if !a.oracle_only() {
                     let id = w.push(coq_case(ops, &r1.obs));
                     if res.case_index.len() < 4000 {
                         res.case_index.insert(id.to_string(), case_json(ops));
                     }
                 }
-                if nontrivial(&Run { obs: vec![], texts: vec![], viol: vec![], n_ckpt: r1.n_ckpt, n_cut: r1.n_cut, stats: vec![] }) {
+                if nontrivial(&Run { obs: vec![], texts: vec![], viol: vec![], n_ckpt: r1.n_ckpt, n_cut: r1.n_cut, stats: vec![], truncated: false }) {
                     distinct.add(&format!("{ops:?}"));
                     if res.samples.len() < 2 && ops.len() < 14 && i >= 5 {
                         res.samples.push(case_json(ops));
@@ -1642,6 +1740,7 @@ fn main() {
                     Some(why) => {
                         res.bump(&format!("concurrent_inconclusive: {why}"));
                     }
+                    None if r1.truncated => res.bump("summary_reached_20000_chars_not_compared"),
                     None => {
                         if !a.oracle_only() {
                             let id = wc.push(coq_ccase(&prefix, &calls, &r1.schedule, &r1.obs));
